@@ -338,6 +338,15 @@ def ensure_corr(seed, tier, build):
                 fts = {HA.nft0[0]} | {(vv or {}).get(('nftCost', None), [HA.nft0[0]])[0] for vv in (va, vb)}
                 ba = {k: x for k, x in ba.items() if k[1] != 5 and k[1] not in fts}
                 bb = {k: x for k, x in bb.items() if k[1] != 5 and k[1] not in fts}
+                # ... but HOW MANY NFTs are drawn does not depend on the schedule (min(payers, NFTs))
+                na = sum(1 for k, x in va.items() if k[0] == 'wonNft' and (x or [0])[0] == 1)
+                nb = sum(1 for k, x in vb.items() if k[0] == 'wonNft' and (x or [0])[0] == 1)
+                if na != nb:
+                    res['violations'].append({'prop': 'C04', 'idx': len(HA.calls) - 1, 'clause': 'twin_nft_count',
+                                              'msg': 'the interrupted run draws %d NFT winners, the single-call run %d' % (na, nb),
+                                              'run': 'twinA', 'hid': h, 'variant': HA.variant, 'profile': 'dev', 'call': '',
+                                              'twin': hsB[h]})
+                    continue
                 va = {k: x for k, x in va.items() if k[0] not in ('wonNft', 'confirmedNft')}
                 vb = {k: x for k, x in vb.items() if k[0] not in ('wonNft', 'confirmedNft')}
             if va != vb or ba != bb:
